@@ -944,11 +944,16 @@ class Interp:
                 self.old_mode = saved
         if name == "implies":
             a = self.eval(node.args[0], fr)
-            if not is_t(a):
-                if not a:
-                    return True
-                return self.eval(node.args[1], fr)
-            b = self.eval(node.args[1], fr)
+            try:
+                if not is_t(a):
+                    if not a:
+                        return True
+                    return self.eval(node.args[1], fr)
+                b = self.eval(node.args[1], fr)
+            except PyRaise:
+                b = False      # an undefined consequent (missing key, index out of range) does not hold
+                if not is_t(a):
+                    return False
             return Implies(self.as_bool(a), self.as_bool(b))
         if name == "ite":
             c = self.eval(node.args[0], fr)
